@@ -130,6 +130,9 @@ HllArray<A>* HllArray<A>::newHll(const void* bytes, size_t len, const A& allocat
   uint32_t numAtCurMin, auxCount;
   std::memcpy(&numAtCurMin, data + hll_constants::CUR_MIN_COUNT_INT, sizeof(int));
   std::memcpy(&auxCount, data + hll_constants::AUX_COUNT_INT, sizeof(int));
+  if (numAtCurMin > (1u << lgK)) {
+    throw std::invalid_argument("Invalid numAtCurMin in HLL sketch image: " + std::to_string(numAtCurMin));
+  }
 
   AuxHashMap<A>* auxHashMap = nullptr;
   typedef std::unique_ptr<AuxHashMap<A>, std::function<void(AuxHashMap<A>*)>> aux_hash_map_ptr;
@@ -205,6 +208,9 @@ HllArray<A>* HllArray<A>::newHll(std::istream& is, const A& allocator) {
 
   const auto numAtCurMin = read<uint32_t>(is);
   const auto auxCount = read<uint32_t>(is);
+  if (numAtCurMin > (1u << lgK)) {
+    throw std::invalid_argument("Invalid numAtCurMin in HLL sketch image: " + std::to_string(numAtCurMin));
+  }
   sketch->putNumAtCurMin(numAtCurMin);
   
   read(is, sketch->hllByteArr_.data(), sketch->getHllByteArrBytes());
